@@ -721,7 +721,11 @@ class Bundle:
         return self._step_all
 
     def num_flat_actions(self) -> int:
-        return int(np.prod(self.nvec)) if self.nvec.size else int(self.nvec)
+        # exact Python integers: 5 ** 48 joint actions (Connector with 48 agents) overflow int64
+        n = 1
+        for x in np.asarray(self.nvec).reshape(-1).tolist():
+            n *= int(x)
+        return n
 
     def action_from_flat(self, idx: int):
         if self.act_shape == ():
